@@ -47,6 +47,16 @@ func vxCheckTree(tag string, snap Snapshot, ref *vxNode, K vxKey, kb []byte, nam
 		vxObserveBytes(tag+"-child-"+n, cgot)
 		vxAssert(tag+"-child-content-isolated", vxGotIs(cgot, vxRefGet(K, ref.kids[n].layers...)))
 		cs.Close()
+		// a child snapshot opened again on the same (still open) parent
+		// snapshot sees the same content
+		cs2, cerr2 := snap.ChildCollectionSnapshot(n)
+		vxAssert(tag+"-child-snapshot-again-ok", cerr2 == nil && cs2 != nil)
+		if cs2 != nil {
+			cgot2, gerr2 := cs2.Get(kb, ReadOptions{})
+			vxAssert(tag+"-child-get-again-ok", gerr2 == nil)
+			vxAssert(tag+"-child-content-stable-across-child-snapshots", vxGotIs(cgot2, vxRefGet(K, ref.kids[n].layers...)))
+			cs2.Close()
+		}
 	}
 }
 
@@ -91,11 +101,25 @@ func init() { vxRegister("vxH_C11_deleteRecreate", vxH_C11_deleteRecreate) }
 // persist, then reopen (or not) and check names / isolation / emptiness of
 // the recreated child.
 func vxH_C11_deleteRecreate() {
-	fs := vxNewFS()
-	so := vxStoreOptions(fs)
-	po := StorePersistOptions{CompactionConcern: CompactionConcern(vxChoose(3))}
-	store, coll, err := OpenStoreCollection(fs.dir, so, po)
-	vxAssert("open-ok", err == nil)
+	backed := vxChoose(2) == 1
+	var fs *vxFS
+	var so StoreOptions
+	var po StorePersistOptions
+	var store *Store
+	var coll Collection
+	var err error
+	if backed {
+		fs = vxNewFS()
+		so = vxStoreOptions(fs)
+		so.CollectionOptions.CachePersisted = vxChoose(2) == 1
+		po = StorePersistOptions{CompactionConcern: CompactionConcern(vxChoose(3))}
+		store, coll, err = OpenStoreCollection(fs.dir, so, po)
+		vxAssert("open-ok", err == nil)
+	} else {
+		coll, err = NewCollection(CollectionOptions{})
+		vxAssert("new-ok", err == nil)
+		coll.Start()
+	}
 	ref := vxNewNode()
 	names := []string{"a"}
 	delNotDurable := map[string]bool{}
@@ -121,30 +145,44 @@ func vxH_C11_deleteRecreate() {
 		case 2:
 			vxAssert("delchild-ok", b.DelChildCollection("a") == nil)
 			delete(ref.kids, "a")
-			delNotDurable["a"] = !parent
+			delNotDurable["a"] = backed && !parent
 		}
 		vxAssert("executebatch-ok", coll.ExecuteBatch(b, WriteOptions{}) == nil)
 		b.Close()
 	}
-	exec(vxChoose(2) == 1, 1)
-	vxDrain(coll)
-	exec(vxChoose(2) == 1, 2)
-	if vxChoose(2) == 1 {
-		vxDrain(coll)
-	}
-	if vxChoose(2) == 1 {
-		exec(false, 1) // recreate
-		if vxChoose(2) == 1 {
+	// settle: persist when store-backed, one merger cycle when in memory
+	settle := func() {
+		if backed {
 			vxDrain(coll)
+		} else {
+			coll.(*collection).NotifyMerger("go", true)
 		}
 	}
-	if vxChoose(2) == 1 {
+	reopen := func() {
 		vxDrain(coll)
 		coll.Close()
 		store.Close()
 		vxQuiesce()
 		store, coll, err = OpenStoreCollection(fs.dir, so, po)
 		vxAssert("reopen-ok", err == nil)
+	}
+	exec(vxChoose(2) == 1, 1)
+	settle()
+	if backed && vxChoose(2) == 1 {
+		reopen()
+	}
+	exec(vxChoose(2) == 1, 2)
+	if vxChoose(2) == 1 {
+		settle()
+	}
+	if vxChoose(2) == 1 {
+		exec(false, 1) // recreate
+		if vxChoose(2) == 1 {
+			settle()
+		}
+	}
+	if backed && vxChoose(2) == 1 {
+		reopen()
 	}
 	var K, J vxKey
 	K.n, J.n = 1, 1
@@ -155,7 +193,9 @@ func vxH_C11_deleteRecreate() {
 	vxCheckTree("final2", snap, ref, J, vxKeyBytes(J), names, delNotDurable)
 	snap.Close()
 	coll.Close()
-	store.Close()
+	if backed {
+		store.Close()
+	}
 }
 
 func vxH_C11_children() {
